@@ -1,4 +1,5 @@
 import Mutagen.Proofs.Reconcile
+import Mutagen.Proofs.Reach
 /-!
 # C03 — ignored, unsupported and problematic content is never removed or replaced
 
@@ -103,10 +104,82 @@ quantification is not empty. -/
 example : Valid (some exampleTree1) ∧ oallSync (some exampleTree1) = false := by
   unfold Valid; decide
 
--- TODO theorem unsync_blocks_with_conflict (DESIGN §8 C03), lifted to `Reconcile`: for every path at
---   which the recursion reaches a disagreement … (the statement above is at the disagreement handler, the only
---   place where actions are planned; `C06.conflict_rooted_at_disagreement` gives the converse direction for
---   conflicts). The lifted form is checked on the implementation by the C03 oracle `unsync-not-blocking`.
+/-- **A conflict is reported instead, for the whole plan** (every mode):
+wherever the recursion reaches a disagreement (`Reaches`) at which endpoint `S`
+holds unsynchronizable residue, no change of the plan for `S` lies at, above or
+below that path, and the plan contains a conflict rooted there, or a change of
+the *other* endpoint exactly there, or (one-way-safe only) no change of the
+other endpoint near that path either — the content simply stays. -/
+theorem unsync_blocks_with_conflict (mode : Mode) (A alpha beta : Option Entry) (rel : Path)
+    (hr : Reaches alpha beta rel) :
+    (diff rel (osync (getPath beta rel)) (getPath beta rel) ≠ [] →
+      (∀ c ∈ (Reconcile A alpha beta mode).beta, incomparable c.path rel) ∧
+      ((∃ c ∈ (Reconcile A alpha beta mode).conflicts, c.root = rel) ∨
+       (∃ c ∈ (Reconcile A alpha beta mode).alpha, c.path = rel) ∨
+       (mode = .oneWaySafe ∧ ∀ c ∈ (Reconcile A alpha beta mode).alpha, incomparable c.path rel))) ∧
+    (diff rel (osync (getPath alpha rel)) (getPath alpha rel) ≠ [] →
+      (∀ c ∈ (Reconcile A alpha beta mode).alpha, incomparable c.path rel) ∧
+      ((∃ c ∈ (Reconcile A alpha beta mode).conflicts, c.root = rel) ∨
+       (∃ c ∈ (Reconcile A alpha beta mode).beta, c.path = rel) ∨
+       (mode = .oneWaySafe ∧ ∀ c ∈ (Reconcile A alpha beta mode).beta, incomparable c.path rel))) := by
+  have hsub := reconcile_sub mode rel [] A alpha beta hr
+  have hex := reconcile_sub_exact mode rel [] A alpha beta hr
+  have hres := residue_blocks mode ([] ++ rel) (effAnc A alpha rel) (getPath alpha rel) (getPath beta rel)
+  simp only [List.nil_append] at hsub hex hres
+  have none_near : ∀ {l : List Change} {l' : List Change}, l' = [] →
+      (∀ c ∈ l, ¬ incomparable c.path rel → c ∈ l') → ∀ c ∈ l, incomparable c.path rel := by
+    intro l l' hl h c hc
+    apply Classical.byContradiction
+    intro hn
+    have := h c hc hn
+    rw [hl] at this
+    cases this
+  constructor
+  · intro hne
+    obtain ⟨hb, hcase⟩ := hres.1 hne
+    refine ⟨none_near hb hex.2, ?_⟩
+    rcases hcase with h | h | ⟨hm, h⟩
+    · left
+      cases hc : (handleDisagreement mode rel (effAnc A alpha rel) (getPath alpha rel) (getPath beta rel)).conflicts with
+      | nil => rw [hc] at h; cases h
+      | cons c cs =>
+        rw [hc] at h
+        simp only [List.map_cons, List.cons.injEq] at h
+        exact ⟨c, hsub.2.2 c (by rw [hc]; simp), h.1⟩
+    · right; left
+      cases hc : (handleDisagreement mode rel (effAnc A alpha rel) (getPath alpha rel) (getPath beta rel)).alpha with
+      | nil => rw [hc] at h; cases h
+      | cons c cs =>
+        rw [hc] at h
+        simp only [List.map_cons, List.cons.injEq] at h
+        exact ⟨c, hsub.1 c (by rw [hc]; simp), h.1⟩
+    · right; right
+      refine ⟨hm, none_near ?_ hex.1⟩
+      simp only [Plan.actionPaths, List.append_eq_nil_iff, List.map_eq_nil_iff] at h
+      exact h.1.1
+  · intro hne
+    obtain ⟨ha, hcase⟩ := hres.2 hne
+    refine ⟨none_near ha hex.1, ?_⟩
+    rcases hcase with h | h | ⟨hm, h⟩
+    · left
+      cases hc : (handleDisagreement mode rel (effAnc A alpha rel) (getPath alpha rel) (getPath beta rel)).conflicts with
+      | nil => rw [hc] at h; cases h
+      | cons c cs =>
+        rw [hc] at h
+        simp only [List.map_cons, List.cons.injEq] at h
+        exact ⟨c, hsub.2.2 c (by rw [hc]; simp), h.1⟩
+    · right; left
+      cases hc : (handleDisagreement mode rel (effAnc A alpha rel) (getPath alpha rel) (getPath beta rel)).beta with
+      | nil => rw [hc] at h; cases h
+      | cons c cs =>
+        rw [hc] at h
+        simp only [List.map_cons, List.cons.injEq] at h
+        exact ⟨c, hsub.2.1 c (by rw [hc]; simp), h.1⟩
+    · right; right
+      refine ⟨hm, none_near ?_ hex.2⟩
+      simp only [Plan.actionPaths, List.append_eq_nil_iff, List.map_eq_nil_iff] at h
+      exact h.1.2
+
 -- TODO theorem remove_preserves_unknown: the on-disk half (transition.go) belongs to C08/C09 (model M6).
 
 end Mutagen.Properties.C03
